@@ -4,8 +4,11 @@ ConfigSet == {[stale |-> "reject", unsafe |-> "accept", maxdepth |-> 32],
               [stale |-> "warn",   unsafe |-> "reject", maxdepth |-> 32],
               [stale |-> "accept", unsafe |-> "warn",   maxdepth |-> 2],
               [stale |-> "reject", unsafe |-> "reject", maxdepth |-> 3]}
+(* the two policies differ in two of the configurations, once in each direction: a mix-up of the two options shows *)
 QuickConfigSet == {[stale |-> "reject", unsafe |-> "reject", maxdepth |-> 3],
-                   [stale |-> "warn",   unsafe |-> "accept", maxdepth |-> 32]}
+                   [stale |-> "warn",   unsafe |-> "accept", maxdepth |-> 32],
+                   [stale |-> "reject", unsafe |-> "accept", maxdepth |-> 32],
+                   [stale |-> "accept", unsafe |-> "reject", maxdepth |-> 32]}
 OneConfig == {[stale |-> "reject", unsafe |-> "reject", maxdepth |-> 32]}
 TwoShapes == {"siblings", "overlap"}
 AllShapes == {"chain", "siblings", "overlap", "twotals", "deep", "loop", "halves"}
